@@ -2559,6 +2559,8 @@ enum VEdit {
     SetStyle(usize, Style),
     /// re-parent node .0 below node .1 (appended); .2 = through `set_children` (true) or `remove_child` + `add_child`
     Move(usize, usize, bool),
+    /// `set_node_context(node, ctx)`: replace or remove (None) the measure data of a node
+    SetContext(usize, Option<Ctx>),
 }
 
 fn gen_vedits(r: &mut Rng, d: &TreeDesc) -> Vec<VEdit> {
@@ -2571,6 +2573,11 @@ fn gen_vedits(r: &mut Rng, d: &TreeDesc) -> Vec<VEdit> {
         }
     }
     collect(d, &mut styles);
+    let mut ctxs: Vec<Option<Ctx>> = {
+        let mut nodes = vec![];
+        d.preorder(&mut nodes);
+        nodes.iter().map(|x| x.ctx).collect()
+    };
     let k = 1 + r.below(3);
     let cfg = GenCfg::all();
     // at most one structural edit, first (later edits address nodes by their original preorder index)
@@ -2598,7 +2605,16 @@ fn gen_vedits(r: &mut Rng, d: &TreeDesc) -> Vec<VEdit> {
         .map(|_| {
             let i = r.below(n);
             match r.below(5) {
-                0 | 1 => VEdit::MarkDirty(i),
+                0 => VEdit::MarkDirty(i),
+                1 => {
+                    // node-context change on a childless node, preferably one that has a context (removal: None)
+                    let leaves: Vec<usize> = (0..n).filter(|&j| styles[j].1).collect();
+                    let with_ctx: Vec<usize> = leaves.iter().copied().filter(|&j| ctxs[j].is_some()).collect();
+                    let j = if !with_ctx.is_empty() && r.chance(2, 3) { *r.pick(&with_ctx) } else if !leaves.is_empty() { *r.pick(&leaves) } else { i };
+                    let c = if ctxs[j].is_some() && r.chance(1, 2) { None } else { Some(Ctx::Fixed(r.range(0, 40) as f32 * 0.5, r.range(0, 30) as f32 * 0.5)) };
+                    ctxs[j] = c;
+                    VEdit::SetContext(j, c)
+                }
                 2 | 3 => {
                     // toggle display:none
                     let mut st = styles[i].0.clone();
@@ -2634,6 +2650,7 @@ fn taffy_relayout_with(d: &TreeDesc, a1: Size<AvailableSpace>, a2: Size<Availabl
             match e {
                 VEdit::MarkDirty(i) => t.mark_dirty(ids[*i]).unwrap(),
                 VEdit::SetStyle(i, s) => t.set_style(ids[*i], s.clone()).unwrap(),
+                VEdit::SetContext(i, c) => t.set_node_context(ids[*i], *c).unwrap(),
                 VEdit::Move(c, p, true) => {
                     let mut ks = t.children(ids[*p]).unwrap();
                     ks.retain(|x| *x != ids[*c]);
@@ -2688,6 +2705,10 @@ fn vtree_relayout(d: &TreeDesc, a1: Size<AvailableSpace>, a2: Size<AvailableSpac
                     t.nodes[*i].style = s.clone();
                     dirty.push(*i);
                 }
+                VEdit::SetContext(i, c) => {
+                    t.nodes[*i].ctx = *c;
+                    dirty.push(*i);
+                }
                 VEdit::Move(c, p, _) => {
                     let old = parent[*c];
                     t.nodes[old].children.retain(|x| x != c);
@@ -2717,6 +2738,7 @@ fn vedits_brief(es: &[VEdit]) -> String {
         .map(|e| match e {
             VEdit::MarkDirty(i) => format!("mark_dirty(n{i})"),
             VEdit::SetStyle(i, s) => format!("set_style(n{i}, {})", style_brief(s)),
+            VEdit::SetContext(i, c) => format!("set_node_context(n{i}, {})", ctx_brief(c)),
             VEdit::Move(c, p, true) => format!("set_children(n{p}, children(n{p}) + [n{c}])"),
             VEdit::Move(c, p, false) => format!("remove_child(parent(n{c}), n{c}); add_child(n{p}, n{c})"),
         })
@@ -2799,6 +2821,8 @@ pub fn run_c17(cfg: &Cfg, out: &mut Out) -> String {
                     VEdit::MarkDirty(_) => "relayout-edit:mark_dirty",
                     VEdit::SetStyle(_, s) if s.display == Display::None => "relayout-edit:hide",
                     VEdit::SetStyle(..) => "relayout-edit:set_style",
+                    VEdit::SetContext(_, None) => "relayout-edit:remove-context",
+                    VEdit::SetContext(..) => "relayout-edit:set-context",
                     VEdit::Move(_, _, true) => "relayout-edit:move-by-set_children",
                     VEdit::Move(..) => "relayout-edit:move-by-remove+add",
                 });
